@@ -11,9 +11,15 @@
 #     A sender's context may end in the middle of a multi-chunk message (the chunk it is parked at is
 #     still written, the call returns the context error): the numbers used stay used, the next message
 #     continues after them (demo: handing them back violates InvSeqStep).
+#     A sender's context may also have ended before the call (C6fail): the message is numbered, nothing is
+#     written, the number goes back -- the next message continues at +1 (demo Dev_SeqConsumedOnEarlyFailure:
+#     a gap). Every forced schedule ends with the same on the server's send path (response, response with
+#     an ended context, response).
 #  4. Free-running runs: senders with 1-3 chunk messages, multi-chunk responses from several server
 #     goroutines, renewals in between, counters started just below the wrap point, None and
 #     Basic256Sha256/SignAndEncrypt.
+#     Both sides also issue sends with an already ended context between successful ones; the many-caller
+#     runs of the correlation harness (failing callers next to normal ones) are recorded as traces too.
 #  5. The chunk.write events of every run (client and server direction) are evaluated by TLC against
 #     spec/ScSend/ScSendTrace (same invariants on 32-bit numbers); the verdict rows decide.
 import json
@@ -24,13 +30,13 @@ import sccorr_common as sc
 
 
 def order_class(sched):
-    keep = ("send.enter", "send.add", "chunk.write", "abort", "renew.locked", "renew.waited", "open.copied", "open.installed", "wait.timeout")
+    keep = ("send.enter", "send.add", "chunk.write", "abort", "fail0", "renew.locked", "renew.waited", "open.copied", "open.installed", "wait.timeout")
     return ",".join(s["p"][-1] + ":" + s["to"].split(".")[-1] for s in sched if s["to"] in keep)
 
 
 def body(run):
     q = run.quick()
-    exe = [None]
+    exe = [None, None]
     jobs = [
         lambda: run.tlc("ScSend", "ScSend", "ScSend_mc.cfg", label="contract: 2 senders x <=2 chunks, renewal may fail, wrap", workers=2, timeout=1500),
         lambda: run.tlc("ScSend", "ScSend", "ScSend_dev_gategap.cfg", expect="violation", count=False, workers=1, label="as-is: gate gap"),
@@ -41,12 +47,15 @@ def body(run):
         lambda: exe.__setitem__(0, run.go_build("scsend")),
         lambda: run.tlc("ScSend", "ScSend", "ScSend_dev_resetonabort.cfg", expect="violation", count=False, workers=1,
                         label="demo: aborted multi-chunk send hands its numbers back"),
+        lambda: run.tlc("ScSend", "ScSend", "ScSend_dev_earlyfail.cfg", expect="violation", count=False, workers=1,
+                        label="demo (repaired d8b779a): a send failing before its first chunk keeps its number"),
+        lambda: exe.__setitem__(1, run.go_build("sccorr")),
     ]
     if not q:
         jobs.append(lambda: run.tlc("ScSend", "ScSend", "ScSend_mc_t.cfg", label="contract: 3 senders x <=3 chunks", workers=6, timeout=3000))
     res = run.parallel(*jobs)
-    if [res[1].violated, res[2].violated, res[3].violated, res[6].violated] != ["InvSeqStep", "InvNoMisuse", "InvSeqStep", "InvSeqStep"]:
-        raise vf.Inconclusive("deviation demos violated %s" % [res[1].violated, res[2].violated, res[3].violated, res[6].violated])
+    if [res[1].violated, res[2].violated, res[3].violated, res[6].violated, res[7].violated] != ["InvSeqStep", "InvNoMisuse", "InvSeqStep", "InvSeqStep", "InvSeqStep"]:
+        raise vf.Inconclusive("deviation demos violated %s" % [res[1].violated, res[2].violated, res[3].violated, res[6].violated, res[7].violated])
     behs = res[4].rows
     # stratified sample over the order classes; behaviours in which the model's wire breaks the
     # invariant (these are the counterexamples of the deviation demos) are over-represented
@@ -60,7 +69,7 @@ def body(run):
     rnd.shuffle(classes)
     nbad, ngood = run.pick(40, 600), run.pick(40, 600)
     sample = [rnd.choice(by[c]) for c in classes[:nbad]]
-    ab = [b for b in good if any(st["to"] == "abort" for st in b["sched"])]
+    ab = [b for b in good if any(st["to"] in ("abort", "fail0") for st in b["sched"])]
     na = [b for b in good if b not in ab]
     sample += rnd.sample(ab, min(ngood // 2, len(ab))) + rnd.sample(na, min(ngood - ngood // 2, len(na)))
     cases = [{"n": i, "mode": "sched", "sched": b["sched"]} for i, b in enumerate(sample)]
@@ -81,6 +90,20 @@ def body(run):
     results = run.go_run(exe[0], [], cases=cases, timeout=run.pick(600, 3000), env=sc.race_env())
     if len(results) < len(cases):
         raise vf.Inconclusive("harness returned %d results for %d cases" % (len(results), len(cases)))
+    # the many-caller runs of the correlation harness (callers whose context has ended / ends within the
+    # send next to normal callers, single- and multi-chunk responses) as further traces
+    mc = [dict(callers=8, rounds=6, failshare=2, big=False, wrap=False), dict(callers=6, rounds=4, failshare=2, big=True, wrap=True)]
+    if not q:
+        mc += [dict(callers=32, rounds=8, failshare=2, big=False, wrap=True), dict(callers=16, rounds=6, failshare=4, big=True, wrap=False),
+               dict(callers=8, rounds=6, failshare=2, big=False, wrap=False, level="client")]
+    mcases = [dict(m, n=i, mode="stress", level=m.get("level", "uasc"), stride=1, rec=True, beh={"steps": [], "results": []}) for i, m in enumerate(mc)]
+    mres = run.go_run(exe[1], ["-prop", "C11"], cases=mcases, timeout=900, env=sc.race_env())
+    if len(mres) < len(mcases):
+        raise vf.Inconclusive("correlation harness returned %d results for %d cases" % (len(mres), len(mcases)))
+    for r in mres:
+        if r.get("status") == "violation":
+            r["status"] = "inconclusive"   # the correlation oracle belongs to C18/C19; here only the trace counts
+    results += mres
     # trace validation by TLC: all recorded chunk.write traces in one file
     lines, meta = [], {}
     drift = 0
@@ -132,8 +155,10 @@ def body(run):
                    "duplicate-seq-after-failed-renewal" if scen.startswith("sched-renew-fails") else
                    "duplicate-seq-on-superseded-instance")
             reproduced += 1
+        elif v["verdict"] == "gap":
+            key = "sequence-gap-after-failed-send" if o.get("failed_sends") else "sequence-gap"
         else:
-            key = "sequence-" + v["verdict"] + ("-after-aborted-message" if scen.endswith("-abort") else "")
+            key = "sequence-" + v["verdict"] + ("-after-aborted-message" if "-abort" in scen else "")
         ev = o["events"][max(0, v["at"] - 3): v["at"] + 1]
         r["status"], r["key"] = "violation", key
         r["detail"] = "%s: chunk %d of the trace breaks the rule (%s); last chunks: %s" % (
